@@ -35,7 +35,8 @@ Pick(sub, f) == Items[Max({ i \in sub : f \in DOMAIN Items[i] })][f]
 Cfg(sub) == [f \in Fields |-> IF Has(sub, f) THEN <<Pick(sub, f)>> ELSE <<>>]
 Subsets == IF IOEnv.TIER = "quick"
            THEN { {i} : i \in 1..N } \cup { {i, j} : i, j \in 1..N } \cup { 1..N } \cup { (1..N) \ {i} : i \in 1..N } \cup {{}}
-           ELSE SUBSET (1..N)
+           ELSE \* every subset of the first 14 items, each also together with any of the later items; small and co-small subsets of all
+                { s \cup e : s \in SUBSET (1..14), e \in {{}} } \cup { s \cup e : s \in { x \in SUBSET (1..14) : Cardinality(x) <= 2 \/ Cardinality(x) >= 12 }, e \in SUBSET (15..N) }
 Own == LET q == SetToSeq(Subsets) IN [i \in 1..Len(q) |-> [items |-> SetToSeq(q[i]), cfg |-> Cfg(q[i]), entries |-> Entries(Cfg(q[i]))]]
 Given == IF IOEnv.CFGS = "none" THEN <<>> ELSE LET g == JsonDeserialize(IOEnv.CFGS) IN [i \in 1..Len(g) |-> [items |-> <<>>, cfg |-> g[i], entries |-> Entries(g[i])]]
 ASSUME IOEnv.MODE = "table" => JsonSerialize(IOEnv.OUTF, [own |-> Own, given |-> Given])
